@@ -19,6 +19,12 @@ CHECKS = {
   note="Trusted: TLC, the output readers, PName (printable name) transcription. dot: survivors are heuristic, only invariance/no-dangling/residual/accounting are demanded. Ties in the sort key may break either way. One known finding (text tree has no residual marker).",
   technique="TLA+ spec model-checked over all kept sets; TLC trace validation of recorded real trimmed reports",
   design_ref="DESIGN.md 5/C05"),
+ "C06": dict(
+  category="model_checking",
+  text="Filter.tla: regular expressions abstracted to the set of names they match; TLC checks the two-pass in-place mechanism (location pass with match maps and line surgery, sample pass) against the per-sample documented meaning of focus/ignore/hide/show/show_from, the partition law focus=R (+) ignore=R, and that kept samples keep values and labels, over every enumerated (profile, option set); tag filters (string lists with and without key, numeric ranges with unit conversion, tagshow/taghide) are specified declaratively. All ~60k cases are replayed on the real filters through the profile API (shared and duplicated locations) and through `pprof ... -proto` (Binding A).",
+  note="Trusted: TLC, vlib bridge, rendering of an abstract expression as an anchored quoted alternation (Go's regexp engine itself is not modelled). Empty-stack samples under hide/show are unspecified. Bounds: 2 samples, depth<=3, universe of 7 names.",
+  technique="TLA+ spec + TLC exhaustive case enumeration replayed on the real filters (API and driver)",
+  design_ref="DESIGN.md 5/C06"),
 }
 
 NOT_YET = "check not built yet in this session (planned in DESIGN.md section 5)"
